@@ -255,6 +255,10 @@ pub struct PreCall {
     /// thread of the same process (two encoders alive at the same time)
     #[serde(default, skip_serializing_if = "std::ops::Not::not")]
     pub concurrent: bool,
+    /// the earlier call's stream is afterwards written, on the same thread, to a user sink that fails at this
+    /// per-mille position of the write's operations (the error is returned to the harness and dropped)
+    #[serde(default, skip_serializing_if = "Option::is_none")]
+    pub failed_write: Option<u32>,
     pub derived: String,
 }
 
